@@ -135,11 +135,17 @@ StreamCertName(src, k) ==
 Base(fam, is, va, us, ns, pl, ro, mo) ==
   [fam |-> fam, issuer |-> is, validity |-> va, usage |-> us, names |-> ns, pins |-> pl, role |-> ro, mode |-> mo]
 
-TableVec(b) ==
-  b @@ [src |-> <<>>, namekind |-> "-", certnames |-> <<>>, seqpins |-> <<>>, calls |-> <<>>,
-        conds |-> Conds(b), nfail |-> Cardinality(Failed(b)), only |-> OnlyFailure(b),
-        pins_wellformed |-> PinsWellFormed(b.pins), pins_configurable |-> PinsConfigurable(b.pins),
-        expect |-> [prop |-> PropAccept(b), code |-> CodeAccept(b)]]
+\* (an explicit record: merging with @@ makes TLC build function values and costs 3-4 times the CPU, measured)
+TableVec(b) ==       \* conds = Conds(b), fl = Failed(b); prop = PropAccept(b), code = CodeAccept(b), computed once
+  LET cs == Conds(b)
+      fl == {c \in CondNames : ~cs[c]}
+      wf == PinsWellFormed(b.pins)
+  IN
+  [fam |-> b.fam, issuer |-> b.issuer, validity |-> b.validity, usage |-> b.usage, names |-> b.names, pins |-> b.pins, role |-> b.role, mode |-> b.mode,
+   src |-> <<>>, namekind |-> "-", certnames |-> <<>>, seqpins |-> <<>>, calls |-> <<>>,
+   conds |-> cs, nfail |-> Cardinality(fl), only |-> IF Cardinality(fl) = 1 THEN CHOOSE c \in fl : TRUE ELSE "-",
+   pins_wellformed |-> wf, pins_configurable |-> PinsConfigurable(b.pins),
+   expect |-> [prop |-> fl = {}, code |-> fl = {} /\ wf]]
 
 TableVectors ==
   { TableVec(Base("table", is, va, us, ns, pl, ro, mo)) :
@@ -286,6 +292,10 @@ Spec == Init /\ [][Next]_vec
 \* ---------------------------------------------------------------- design-level properties (C09)
 IsTable  == vec.fam = "table"
 IsStream == vec.fam = "stream"
+
+\* the verdicts stored in a table vector are the operators' values
+VerdictsAreDefinitions ==
+  IsTable => vec.expect.prop = PropAccept(vec) /\ vec.expect.code = CodeAccept(vec) /\ vec.only = OnlyFailure(vec)
 
 \* acceptance implies every condition
 AcceptImpliesAll ==
